@@ -44,7 +44,7 @@ META = {
                    'hook; no other exception type escapes; all registers stay in [0,2^32); the PC stays aligned.',
     'bounds': ['single step from an arbitrary valid state (multi-instruction programs follow by induction with the '
                'range/alignment invariants re-established after every step)', 'register lists of LDM/STM are windowed: '
-               '4 list bits symbolic (r0-r3 or r12-r15 incl. SP/LR/PC/base-in-list), the other 12 zero',
+               '4 list bits symbolic (r0-r3 or r12-r15 incl. SP/LR/PC/base-in-list; Thumb-16: r0-r3 or r4-r7), the others zero',
                'quick: 24 ARM + 24 Thumb-16 + 24 Thumb-32 shards spread over the space (offset rotated by VERIF_SEED); thorough: all shards '
                '(+ arch 6 and no-security samples)', 'MPU off'],
     'outside': ['MPU/MMU enabled stepping (translation totality is exercised by C14/C15)',
